@@ -172,8 +172,8 @@ func scenarios(r *ev.Run) []built {
 					if ps != 100 && ps > n {
 						continue
 					}
-					for _, variant := range []string{"plain", "last-arrives-between-count-and-page", "count-lags-by-one", "two-blocks"} {
-						if variant == "two-blocks" && n < 2 {
+					for _, variant := range []string{"plain", "last-arrives-between-count-and-page", "count-lags-by-one", "two-blocks", "one-transaction"} {
+						if (variant == "two-blocks" || variant == "one-transaction") && n < 2 {
 							continue
 						}
 						toks := map[string]alphh.TokenAnswer{alphh.AddressOf(tokOK): {Kind: "ok", Symbol: "SYM", Name: "Token name", Decimals: 8}}
@@ -192,6 +192,10 @@ func scenarios(r *ev.Run) []built {
 								}
 							} else {
 								m = legit(i, legitKinds[(i+n)%len(legitKinds)])
+							}
+							if variant == "one-transaction" {
+								// all events are emitted by ONE transaction (a script calling the bridge several times)
+								m.Tx = alphh.TxID(77)
 							}
 							msgs = append(msgs, m)
 							mm := m
